@@ -8,9 +8,9 @@ use crate::Src;
 use cao_lang::prelude::Handle;
 use cao_lang::verif_hooks::{decode_str, decode_value, encode_str, opcode_count, opcode_span, read_from_bytes, read_str, write_to_vec};
 
-fn prefix<S: Src>(s: &mut S, out: &mut Vec<u8>) -> usize {
-    // 0..=3 junk bytes in front, so that the operand sits at an unaligned offset
-    let k = s.below(4) as usize;
+fn prefix<S: Src>(_s: &mut S, out: &mut Vec<u8>, k: usize) -> usize {
+    // K junk bytes in front, so that the operand sits at an unaligned offset (concrete per
+    // harness: a symbolic vector length does not close)
     let mut i = 0;
     while i < k {
         out.push(0xAA);
@@ -19,9 +19,9 @@ fn prefix<S: Src>(s: &mut S, out: &mut Vec<u8>) -> usize {
     k
 }
 
-pub fn roundtrip_ints<S: Src>(s: &mut S) {
+pub fn roundtrip_ints<S: Src, const K: usize>(s: &mut S) {
     let mut out: Vec<u8> = Vec::with_capacity(32);
-    let k = prefix(s, &mut out);
+    let k = prefix(s, &mut out, K);
     let a = s.i64();
     let b = s.u32();
     let c = s.u32() as i32;
@@ -40,14 +40,14 @@ pub fn roundtrip_ints<S: Src>(s: &mut S) {
     assert!(ip == out.len(), "C10.operand.decoder_consumes_exactly_the_operand");
     // read_from_bytes refuses truncated input instead of reading out of bounds
     let cut = s.below(8) as usize;
-    let r: Option<(usize, i64)> = read_from_bytes(&out[k..k + cut]);
+    let r: Option<(usize, i64)> = read_from_bytes(&out[K..K + cut]);
     assert!(r.is_none(), "C10.operand.truncated_operand_is_rejected");
     s.reached("c10.roundtrip_ints");
 }
 
-pub fn roundtrip_float_handle<S: Src>(s: &mut S) {
+pub fn roundtrip_float_handle<S: Src, const K: usize>(s: &mut S) {
     let mut out: Vec<u8> = Vec::with_capacity(32);
-    let k = prefix(s, &mut out);
+    let k = prefix(s, &mut out, K);
     let f = s.f64();
     let h = bytemuck::cast::<u32, Handle>(s.u32());
     write_to_vec(f, &mut out);
@@ -62,9 +62,9 @@ pub fn roundtrip_float_handle<S: Src>(s: &mut S) {
 }
 
 /// strings of concrete length LEN with solver-chosen ASCII content at a solver-chosen offset
-pub fn roundtrip_str<S: Src, const LEN: usize>(s: &mut S) {
+pub fn roundtrip_str<S: Src, const LEN: usize, const K: usize>(s: &mut S) {
     let mut data: Vec<u8> = Vec::with_capacity(32);
-    let k = prefix(s, &mut data);
+    let k = prefix(s, &mut data, K);
     let mut b = [0u8; 8];
     let mut i = 0;
     while i < LEN {
@@ -130,12 +130,13 @@ pub fn span_table<S: Src>(s: &mut S) {
 }
 
 crate::harnesses! {
-    c10_roundtrip_ints / 10 => roundtrip_ints;
-    c10_roundtrip_float_handle / 10 => roundtrip_float_handle;
-    c10_roundtrip_str_0 / 10 => roundtrip_str::<_, 0>;
-    c10_roundtrip_str_1 / 10 => roundtrip_str::<_, 1>;
-    c10_roundtrip_str_3 / 10 => roundtrip_str::<_, 3>;
-    c10_roundtrip_str_5 / 12 => roundtrip_str::<_, 5>;
+    c10_roundtrip_ints_k0 / 10 => roundtrip_ints::<_, 0>;
+    c10_roundtrip_ints_k3 / 10 => roundtrip_ints::<_, 3>;
+    c10_roundtrip_float_handle_k1 / 10 => roundtrip_float_handle::<_, 1>;
+    c10_roundtrip_str_0 / 10 => roundtrip_str::<_, 0, 0>;
+    c10_roundtrip_str_1 / 10 => roundtrip_str::<_, 1, 2>;
+    c10_roundtrip_str_3 / 10 => roundtrip_str::<_, 3, 1>;
+    c10_roundtrip_str_5 / 12 => roundtrip_str::<_, 5, 3>;
     c10_decode_str_total_6 / 10 => decode_str_total::<_, 6>;
     c10_decode_str_total_8 / 12 => decode_str_total::<_, 8>;
     c10_span_table / 50 => span_table;
